@@ -85,6 +85,25 @@ def run(ctx, rep):
         else:
             rep.ob('R05.a', fn, variant + ':journal-before-ack', True, c.where(), 'every success response after %s passes the success edge of state.apply' % short(m.name))
 
+    # ------------------------------------------------------------ R05.k journal order = execution order
+    rep.rule('R05.k', 'journal order equals execution order: a handler journals its command under the same acquisition of the system lock under which the mutator ran (the write guard kept or downgraded, never released and re-acquired)', floor=38, analysis='A4')
+    for d, b, c in sites:
+        fn = ctx.user_fn_of(d)
+        if fn == SYS + '::load_users':
+            continue
+        ops = system_ops(ctx, b)
+        muts = [m for m in ops if success_dominates(b, m, c.bb)]
+        if not muts:
+            continue
+        m = muts[-1]
+        ra, rm = b.expr_operand(c.args[0]), b.expr_operand(m.args[0])
+        acq_a = {(x[1], x[3]) for x in walk(ra) if x[0] == 'call' and x[1] in (SHARED_WRITE, SHARED_READ)}
+        acq_m = {(x[1], x[3]) for x in walk(rm) if x[0] == 'call' and x[1] in (SHARED_WRITE, SHARED_READ)}
+        same = bool(acq_a & acq_m)
+        rep.ob('R05.k', fn, 'journal under the mutator\'s lock acquisition', same, c.where(),
+               '%s → %s, one acquisition' % (system_guard_kind(rm), system_guard_kind(ra)) if same else
+               'the system lock taken for %s (%s) is not the one held while journalling (%s): another command can run and be journalled in between, so replay order differs from execution order' % (short(m.name), system_guard_kind(rm), system_guard_kind(ra)))
+
     # ------------------------------------------------------------ R05.b siblings
     rep.rule('R05.b', 'the binary and the HTTP handler of one journalled command call the same System mutator and journal the same entry variant', floor=19, analysis='A6')
     variants = enum_variant_names(ctx, EC)
@@ -203,6 +222,12 @@ def run(ctx, rep):
             ok = a0[0] == 'field' and a0[2] == 'timestamp' and a0[3] == 'server::state::entry::StateEntry'
             rep.ob('R05.h', 'server::state::system::SystemState::init', 'token expiry base', ok, c.where(),
                    'expiry computed from entry.timestamp' if ok else 'token expiry is computed from `%s`, not from the timestamp of the journal entry: every restart re-arms the token' % render(a0)[:80])
+
+    # ------------------------------------------------------------ R05.j replay addresses the entity the command names
+    rep.rule('R05.j', 'replay looks every entity up by the identifier of its own kind: an id passed to find_stream_id / find_topic_id / find_consumer_group_id / find_user_id (and to any id-kinded parameter in server::state) has that kind', floor=25, analysis='A13')
+    import idkinds
+    idkinds.check_calls(ctx, rep, 'R05.j', ['server::state::'])
+    idkinds.check_map_keys(ctx, rep, 'R05.j', ['server::state::'])
 
     # ------------------------------------------------------------ R05.e start-up deletes only what replay does not know
     rep.rule('R05.e', 'start-up removes a data directory only on the "not found in replayed state" edge', floor=2, analysis='A3')
